@@ -138,3 +138,57 @@ Theorem C05_dry_run_stack_machine_exact : forall A B fa fb fo op,
     forall limit, DryStack.check_fused_binary_flip_op_stack limit A B fa fb fo op = Ok (if limit <? c then None else Some (negb (is_false r), c)).
 Proof. exact Proofs.DryStack.check_exact_stack. Qed.
 Print Assumptions C05_dry_run_stack_machine_exact.
+
+(* ---- the unfused entry points named in the property text.  Bdd::binary_op_with_limit(limit, l, r, op) is
+   apply_with_flip_and_limit(limit, l, r, None, None, None, op) and Bdd::check_binary_op(limit, l, r, op) is
+   estimated_apply_complexity(limit, l, r, None, None, None, op): their model is the fused model without flips (this is the term
+   the driver evaluates for `binlim` / `drybin`), and the step-faithful `binary_op_with_limit_stack` / `check_binary_op_stack`. ---- *)
+From BddVerif Require Proofs.GapsLimit.
+
+Theorem C05_binary_op_with_limit_exact : forall A B op limit,
+  wf A -> wf B -> nvars A = nvars B -> total2 op -> consistent2 op ->
+  exists r, binary_op A B op = Ok r /\
+    fused_binary_flip_op_with_limit limit A B None None None op = Ok (if size r <=? limit then Some r else None) /\
+    ApplyLimitStack.binary_op_with_limit_stack limit A B op = Ok (if size r <=? limit then Some r else None).
+Proof. exact GapsLimit.binary_op_with_limit_exact. Qed.
+Print Assumptions C05_binary_op_with_limit_exact.
+
+Theorem C05_check_binary_op_exact : forall A B op,
+  wf A -> wf B -> nvars A = nvars B -> total2 op -> consistent2 op ->
+  exists r c, binary_op A B op = Ok r /\ size r - 2 <= c /\
+    forall limit,
+      check_fused_binary_flip_op limit A B None None None op = Ok (if limit <? c then None else Some (negb (is_false r), c)) /\
+      DryStack.check_binary_op_stack limit A B op = Ok (if limit <? c then None else Some (negb (is_false r), c)).
+Proof. exact GapsLimit.check_binary_op_exact. Qed.
+Print Assumptions C05_check_binary_op_exact.
+
+(* the size-limited operator panics exactly on the two argument checks, for EVERY limit: the checks precede the
+   `limit == 0` shortcut (limit 0 with a bad flip or a variable-count mismatch panics, it does not answer None) *)
+Theorem C05_limit_panic_iff : forall limit A B fa fb fo op,
+  fused_binary_flip_op_with_limit limit A B fa fb fo op = Panic <-> (nvars A <> nvars B \/ flips_ok (nvars A) fa fb fo = false).
+Proof. exact GapsLimit.limit_panic_iff. Qed.
+Print Assumptions C05_limit_panic_iff.
+
+Theorem C05_binary_op_with_limit_panic_iff : forall limit A B op,
+  fused_binary_flip_op_with_limit limit A B None None None op = Panic <-> nvars A <> nvars B.
+Proof. exact GapsLimit.binary_op_with_limit_panic_iff. Qed.
+Print Assumptions C05_binary_op_with_limit_panic_iff.
+
+Theorem C05_check_binary_op_panic_iff : forall limit A B op,
+  check_fused_binary_flip_op limit A B None None None op = Panic <-> nvars A <> nvars B.
+Proof. exact GapsLimit.check_binary_op_panic_iff. Qed.
+Print Assumptions C05_check_binary_op_panic_iff.
+
+Example C05_limit_zero_and_unfused_nonvacuous :
+  let A := [mkNode 3 0 0; mkNode 3 1 1; mkNode 1 0 1; mkNode 0 0 2] in
+  let B := [mkNode 3 0 0; mkNode 3 1 1; mkNode 2 1 0] in
+  let B2 := [mkNode 2 0 0; mkNode 2 1 1] in
+  fused_binary_flip_op_with_limit 0 A B None None None op_xor = Ok None /\
+  fused_binary_flip_op_with_limit 0 A B (Some 3) None None op_xor = Panic /\
+  fused_binary_flip_op_with_limit 0 A B2 None None None op_xor = Panic /\
+  ApplyLimitStack.binary_op_with_limit_stack 5 A B op_xor = Ok None /\
+  (exists r, ApplyLimitStack.binary_op_with_limit_stack 6 A B op_xor = Ok (Some r) /\ binary_op A B op_xor = Ok r) /\
+  DryStack.check_binary_op_stack 100 A B op_xor = Ok (Some (true, 4)) /\
+  DryStack.check_binary_op_stack 3 A B op_xor = Ok None.
+Proof. exact GapsLimit.limit_zero_example. Qed.
+Print Assumptions C05_limit_zero_and_unfused_nonvacuous.
